@@ -971,8 +971,10 @@ impl CxxCodeBodyTranslator {
                 }
                 ConstantValue::Integer(v) => v.to_string(),
                 ConstantValue::Float(v) => format!("{v:e}"),
-                ConstantValue::CString(v) => format!("{v:?}"), // TODO: escape per C spec)
-                ConstantValue::QString(v) => format!("QStringLiteral({v:?})"),
+                ConstantValue::CString(v) => format_cxx_string_literal(v),
+                ConstantValue::QString(v) => {
+                    format!("QStringLiteral({})", format_cxx_string_literal(v))
+                }
                 ConstantValue::NullPointer => "nullptr".to_owned(),
                 ConstantValue::EmptyList => "{}".to_owned(),
             },
@@ -982,6 +984,26 @@ impl CxxCodeBodyTranslator {
             Operand::Void(_) => "void()".to_owned(),
         }
     }
+}
+
+/// Formats string as C++ narrow string literal of UTF-8 source encoding.
+fn format_cxx_string_literal(s: &str) -> String {
+    let mut literal = String::with_capacity(s.len() + 2);
+    literal.push('"');
+    for c in s.chars() {
+        match c {
+            '"' => literal.push_str("\\\""),
+            '\\' => literal.push_str("\\\\"),
+            '\n' => literal.push_str("\\n"),
+            '\r' => literal.push_str("\\r"),
+            '\t' => literal.push_str("\\t"),
+            // 3-digit octal escape never swallows the following character
+            '\0'..='\x1f' | '\x7f' => literal.push_str(&format!("\\{:03o}", u32::from(c))),
+            _ => literal.push(c),
+        }
+    }
+    literal.push('"');
+    literal
 }
 
 fn member_access_op(a: &tir::Operand) -> &'static str {
